@@ -277,6 +277,31 @@ def r2_reductions(ck, prog, run):
                     got == want, found=str(got), expected=str(want), nontrivial=True)
         else:
             ck.unk("R2", ta.where, "Phase._take_along_axis(flat index, axis=None)", "selection is an element lookup the analyser can normalise", str(r)[:160])
+    take_along_rule(ck, prog, ta)
+
+
+def take_along_rule(ck, prog, ta):
+    """_take_along_axis(per-axis indices, axis=k) for EVERY axis number, 0 included, selects along that axis."""
+    from ..symeval import Evaluator
+    A_, B_ = sp.Symbol("A", integer=True, positive=True), sp.Symbol("B", integer=True, positive=True)
+    for k, ishape in ((0, (B_,)), (1, (A_,)), (-1, (A_,))):
+        xarr = Num(sp.Symbol("P"), kind="array", shape=(A_, B_), tag="elemarr")
+        idx = Num(sp.Symbol("axis_indices"), kind="array", shape=ishape, tag="elemarr")
+        ev_t = Evaluator(prog)
+        lab = f"Phase._take_along_axis(indices, axis={k})"
+        r = ck.attempt("R2", ta.where, lab, "evaluates on an opaque element array", lambda: ev_t.call(ta, [idx], {"axis": Num(k)}, self_val=xarr))
+        if r is None or not isinstance(r, Num):
+            continue
+        e = r.expr
+        while getattr(e.func, "__name__", "") == "Squeeze":
+            e = e.args[0]
+        along = getattr(e.func, "__name__", "") == "TakeAlong" and e.args[0] == xarr.expr and e.args[2] == k % 2 and e.args[1].has(idx.expr)
+        flat = e.has(F["Unravel"]) or e.has(F["Ravel"])
+        if along or flat:
+            ck.same("R2", ta.where, lab, "the indices returned by argmin/argmax/argsort along an axis select along THAT axis (axis 0 is an axis, not 'no axis')",
+                    along and not flat, found=str(r.expr)[:160], nontrivial=True)
+        else:
+            ck.unk("R2", ta.where, lab, "selection is a take_along_axis the analyser can recognise", str(r.expr)[:160])
 
 
 # ---------------------------------------------------------------------------------------- R3 strings
@@ -498,6 +523,50 @@ def r5_to_string(ck, prog, run):
            (not bad) if not unk else (False if bad else None), found=str(bad[:4]) if bad else None, nontrivial=True,
            note=f"{len(bad)} wrong of {n}" + (f"; not evaluable: {unk[:2]}" if unk else ""))
     run.floor("R5", "rendering combinations", n, 100)
+    # fixed-point format(): same contract, through Phase.__format__
+    ffm = prog.func("Phase.__format__")
+    run.touched(ffm)
+    badf, unkf, nf = [], [], 0
+    for i_, f_ in vals:
+        if sp.Rational(f_).q > 2**20:
+            continue
+        for spec in (".1f", ".3f", ".6f"):
+            nf += 1
+            p = make_phase(prog, "p")
+            p.attrs["_pint"] = Num(sp.Integer(i_), isfloat=True)
+            p.attrs["_pfrac"] = Num(sp.Rational(f_), isfloat=True)
+            ev = phase_evaluator(prog, PhaseLog())
+            ev.float_fold = True
+            label = f"format(Phase({i_}, {f_}), '{spec}')"
+            try:
+                r = ev.call(ffm, [StrV(spec)], {}, self_val=p)
+            except Raised as e:
+                badf.append((label, f"raises {e}"[:80]))
+                continue
+            except (Unsupported, DimensionError) as e:
+                unkf.append((label, str(e)[:120]))
+                continue
+            if not isinstance(r, StrV):
+                unkf.append((label, repr(r)[:60]))
+                continue
+            exact = Fraction(i_) + Fraction(f_)
+            pr = int(spec[1:-1])
+            try:
+                got = Fraction(decimal.Decimal(r.s))
+            except Exception:
+                badf.append((label, f"{r.s!r} is not a decimal number"))
+                continue
+            digits = len(r.s.split(".")[1]) if "." in r.s else 0
+            ok = digits == pr and abs(got - exact) <= Fraction(1, 2 * 10**pr)
+            if ok and exact < 0 and not r.s.startswith("-") and (got != 0 or abs(exact) >= Fraction(1, 2 * 10**pr)):
+                ok = False
+            if not ok:
+                badf.append((label, f"{r.s!r} for the exact value {exact}"))
+    run.ob("R5", ffm.where, f"format(phase, '.Nf') over {nf} (value, precision) combinations", "fixed-point formatting is the exact two-part value rounded to the "
+           "digits shown, with its sign (also for values in (-1, 0), whose integer part prints as -0)",
+           (not badf) if not unkf else (False if badf else None), found=str(badf[:4]) if badf else None, nontrivial=True,
+           note=f"{len(badf)} wrong of {nf}" + (f"; not evaluable: {unkf[:2]}" if unkf else ""))
+    run.floor("R5", "format() combinations", nf, 40)
     # from_string(to_string(p)) == p on the same values: parse the rendered string with the package's own parser
     fps = prog.func("_parse_string")
     bad2, unk2 = [], []
